@@ -32,7 +32,10 @@ type c16Hier struct {
 	n     int
 	bases [][]int
 	defs  [][]string // per class: which of x, m, cm, sm, __len__ it defines
+	dyn   []bool     // per class: built by type(name, bases, ns) from a dict that also builds a twin class and is modified afterwards
 }
+
+func (h c16Hier) isDyn(i int) bool { return i < len(h.dyn) && h.dyn[i] }
 
 func (h c16Hier) classDefs() string {
 	var sb strings.Builder
@@ -40,6 +43,30 @@ func (h c16Hier) classDefs() string {
 		bs := make([]string, len(h.bases[i]))
 		for k, b := range h.bases[i] {
 			bs[k] = fmt.Sprintf("C%d", b)
+		}
+		if h.isDyn(i) {
+			fmt.Fprintf(&sb, "ns%d = {'__module__': 'dyn'}\n", i)
+			for _, d := range h.defs[i] {
+				switch d {
+				case "x":
+					fmt.Fprintf(&sb, "ns%d['x'] = 'C%d'\n", i, i)
+				case "m":
+					fmt.Fprintf(&sb, "def _m%d(self):\n    return ('C%d', self)\nns%d['m'] = _m%d\n", i, i, i, i)
+				case "cm":
+					fmt.Fprintf(&sb, "def _cm%d(cls):\n    return ('C%d', cls)\nns%d['cm'] = classmethod(_cm%d)\n", i, i, i, i)
+				case "sm":
+					fmt.Fprintf(&sb, "def _sm%d(*a):\n    return ('C%d', a)\nns%d['sm'] = staticmethod(_sm%d)\n", i, i, i, i)
+				case "len":
+					fmt.Fprintf(&sb, "def _len%d(self):\n    return %d\nns%d['__len__'] = _len%d\n", i, i+10, i, i)
+				}
+			}
+			tup := "(" + strings.Join(bs, ", ")
+			if len(bs) == 1 {
+				tup += ","
+			}
+			tup += ")"
+			fmt.Fprintf(&sb, "C%d = type('C%d', %s, ns%d)\nT%d = type('T%d', %s, ns%d)\nns%d['x'] = 'changed-after'\nns%d['zz'] = 'leak'\n", i, i, tup, i, i, i, tup, i, i, i)
+			continue
 		}
 		head := fmt.Sprintf("class C%d", i)
 		if len(bs) > 0 {
@@ -191,6 +218,7 @@ func drawHier(g *G, maxN int) c16Hier {
 			}
 		}
 		h.defs = append(h.defs, ds)
+		h.dyn = append(h.dyn, g.Chance(1, 4))
 	}
 	return h
 }
@@ -261,8 +289,22 @@ func c16Accesses(r *Run, g *G, h c16Hier, k int) []c16Access {
 	add("delete.inst", "rec('del o1.x', lambda: delattr(o1, 'x'))\nrec('o1.x after del', lambda: o1.x)\nrec('del o1.x again', lambda: delattr(o1, 'x'))")
 	add("write.class", fmt.Sprintf("%s.x = 'set-on-%s'\nrec('o2.x', lambda: o2.x)", ck, ck))
 	allReads("write.class")
+	for i := 0; i < h.n; i++ {
+		if h.isDyn(i) {
+			add("dyn.twin.after-write", fmt.Sprintf("rec('twin of C%d after write', lambda: (t(lambda: T%d.x), t(lambda: T%d().x), ns%d.get('x')))", i, i, i, i))
+		}
+	}
+	dynReads := func(tagp string) {
+		for i := 0; i < h.n; i++ {
+			if h.isDyn(i) {
+				add(tagp, fmt.Sprintf("rec('twin of C%d', lambda: (t(lambda: T%d.x), t(lambda: T%d().x), t(lambda: C%d.x), hasattr(C%d, 'zz'), hasattr(T%d(), 'zz'), sorted(k for k in ns%d if k[0] != '_'), ns%d.get('x')))", i, i, i, i, i, i, i, i))
+			}
+		}
+	}
+	dynReads("dyn.twin.before-writes")
 	add("delete.class", fmt.Sprintf("rec('del %s.x', lambda: delattr(%s, 'x'))", ck, ck))
 	allReads("delete.class")
+	dynReads("dyn.twin.after-delete")
 	return out
 }
 
@@ -355,7 +397,7 @@ func TestC16(t *testing.T) {
 	r := StartRun(t, "C16")
 	defer r.Finish()
 	r.Extra("rule", "exhaustive: every hierarchy of <=4 classes in which class i takes any ordered selection of <=3 earlier classes as bases (160 shapes, consistent and inconsistent), each with "+
-		"a fixed rotating placement of x/m/cm/sm/__len__; rapid-drawn hierarchies of <=4 (thorough <=6) classes with random base orderings and placements; for each, reads on instances "+
+		"a fixed rotating placement of x/m/cm/sm/__len__; rapid-drawn hierarchies of <=4 (thorough <=6) classes with random base orderings and placements, a quarter of the classes built by type(name, bases, ns) from a dict that also builds a twin class and is modified afterwards; for each, reads on instances "+
 		"and classes, m/cm/sm calls through instance and class, isinstance for all pairs and tuples, getattr/hasattr forms, instance and class writes and deletes followed by re-reads "+
 		"from every class and instance. Oracles: CPython (defining class name / exception class / TypeError at class creation) and a textbook C3 model for acceptance "+
 		"(model/CPython disagreement = inconclusive). Non-trivial: some class has >=2 bases; distinct by program text.")
